@@ -16,6 +16,7 @@ EXPLANATION = (
     "NUL-terminated field's terminator is checked before it is stripped.")
 EXPLANATION_ADDED2 = '(R6) the reply codes passed by the client front end belong to the protocol version of the writer and are the success code exactly after the channel is established.'
 EXPLANATION = EXPLANATION + " Added while testing against seeded changes: " + EXPLANATION_ADDED2
+EXPLANATION = EXPLANATION + " Rounds 12-13: (R7) the request / negotiation readers read from the caller's reader itself (no take / chain / buffering adaptor between the reader parameter and a read call)."
 ASSUMPTIONS = [
     "tokio AsyncReadExt::read_uN read big-endian fixed widths; read_exact fills the whole buffer; "
     "read_until stops at the delimiter or EOF (library contracts)",
